@@ -224,13 +224,22 @@ def body(max_steps, c):
                 g1, g2 = onp.array(mk(71)), onp.array(mk(72))
                 try:
                     vjp, y = autograd.make_vjp(inst.f(AG))(inst.x_carried())
-                    r1 = onp.asarray(vjp(g1))
-                    r2 = onp.asarray(vjp(g2))
-                    r1b = onp.asarray(vjp(g1))
+                    g1_0, g2_0 = g1.copy(), g2.copy()
+                    r1 = onp.array(vjp(g1))
+                    r1a = onp.array(vjp(g1))  # at once again (a rule that flips state on every call is right every other time)
+                    r2 = onp.array(vjp(g2))
+                    r1b = onp.array(vjp(g1))
+                    r2f = onp.array(autograd.make_vjp(inst.f(AG))(inst.x_carried())[0](g2_0))  # a fresh function, a fresh copy of the cotangent (equal up to rounding: LAPACK results depend on buffer alignment)
                 except Exception as e:
                     if not from_autograd(e):
                         raise
                     continue  # raising is C01's / C15's business
+                if not (onp.array_equal(g1, g1_0, equal_nan=True) and onp.array_equal(g2, g2_0, equal_nan=True)):
+                    return fail("history_dependence", f"step {step}: VJP function of {tname} {inst.call.desc} changed the cotangent array the caller passed in",
+                                bucket("closure_reuse_cotangent"), sample=sample)
+                if r1.shape != r1a.shape or not onp.array_equal(r1, r1a, equal_nan=True) or r2.shape != r2f.shape or not onp.allclose(r2, r2f, rtol=1e-5, atol=1e-5 * (1.0 + float(onp.max(onp.abs(r2f), initial=0.0)) if onp.all(onp.isfinite(r2f)) else 1.0), equal_nan=True):
+                    return fail("history_dependence", f"step {step}: VJP function of {tname} {inst.call.desc} gives a different answer on its second call with the same "
+                                "cotangent, or on a later call than a fresh function gives", bucket("closure_reuse"), sample=sample)
                 if r1.shape != r1b.shape or not onp.array_equal(r1, r1b, equal_nan=True):
                     return fail("history_dependence", f"step {step}: VJP function of {tname} {inst.call.desc} gives a different answer when called again with "
                                 "the same cotangent", bucket("closure_reuse"), sample=sample)
